@@ -2361,6 +2361,30 @@ def judge_mix(chk, case, count=False):
         if why is not None:
             return ("violation", "mixed-input-detector-law",
                     f"{label}: not the mixture of the members' conditioned laws with the members' weights: {why}", case)
+    # (1b) all-PNR path at a positive precision: probs_svd_mix_pnr_law evaluated directly on the implementation's answer —
+    #      physical_perf * logical_perf * results[reported t] = sum over the members _preprocess_svd keeps of p_m * base_m[t]
+    if rel > 0 and spec_detection_type(dets or []) == "PNR":
+        F0 = case["minph"] + sum(v for _, v in heralds)
+        maxp0 = max([p for p, n, _ in members if n >= F0] + [Fraction(0)])
+        T0 = max(SHIPPED_MINP, maxp0 * Fraction(*rel.as_integer_ratio()))
+        if all(abs(p - T0) > Fraction(1, 10 ** 7) * max(p, T0) for p, n, _ in members):
+            hm0 = sorted(k for k, _ in heralds)
+            exp = {}
+            for p, n, base in members:
+                if n >= F0 and p > T0:
+                    for t, q in base:
+                        if all(t[k] == v for k, v in heralds) and ps_ok(ps, t):
+                            key = tuple(x for i, x in enumerate(t) if i not in hm0)
+                            exp[key] = exp.get(key, Fraction(0)) + p * q
+            why = cmp_dist({k: perf * logical * v for k, v in got.items()}, exp)
+            if why is not None:
+                return ("violation", "mixed-input-pnr-law",
+                        f"{label}: physical_perf*logical_perf*results is not the weighted sum of the kept members' theoretical "
+                        f"probabilities (all-PNR path, threshold {float(T0)!r}): {why}", case)
+            if count:
+                chk.branch("mix-pnr-law-at-precision")
+                if any(n >= F0 and p <= T0 for p, n, _ in members):
+                    chk.branch("mix-pnr-law-member-trimmed")
     # (2) the model of the whole path
     F = case["minph"] + sum(v for _, v in heralds)
     minp = SHIPPED_MINP
@@ -2520,6 +2544,8 @@ def mix_cases(chk):
                 "rel": rng.choice([[0, 1]] * 3 + [[rng.randint(1, 9), 1000], [rng.randint(1, 9), 100], [rng.randint(11, 49), 100]])}
         if rng.random() < 0.3:
             case["ps"] = gen_ps(rng, free, n)
+        if style == "pnr" and (i // 5) % 2 == 0 and case["rel"][0] == 0:
+            case["rel"] = [3 + i % 7, 100 if (i // 10) % 2 else 10]    # all-PNR path at a positive precision (no rng draw)
         out.append(case)
     # Processor.probs() with a lossy source (the mixture is produced by Source)
     for i in range(chk.pick(8, 50)):
@@ -2816,6 +2842,8 @@ def run(chk: core.Check):
                 "(general branch m<=4, uniform lists, one mode, exact ties), BSLayeredPPNR.detect and simulate_detectors_sample at "
                 "changed min_p; probs_svd on mixtures of 2-6 Fock members (photons lost, vacuum, unrelated states) with heralds, "
                 "filter, post-selection, precision in {0, 1e-3..0.5}, and Processor.probs() with brightness 0.3..0.9. "
+                "All-PNR mixtures at precision 0.003..0.9: physical_perf*logical_perf*results against the weighted sum of the kept "
+                "members' theoretical probabilities. "
                 "One interleaved / beam-splitter-tree instance through 4-12 operations: detect(n) at the shipped min_p and at "
                 "cut-offs between the probabilities the code compares with min_p, clear_cache(), copy(), back to the original. "
                 "distinct = distinct (detector, photons) / (kinds, states, filter) "
@@ -2887,6 +2915,7 @@ def run(chk: core.Check):
                              "mix-model", "mix-mask-path", "mix-imperfect-detectors", "mix-member-dropped",
                              "mix-member-below-filter", "mix-vacuum-member", "mix-photon-numbers-differ",
                              "mix-threshold-from-precision", "mix-postselect", "mix-heralds", "mix-via-processor",
+                             "mix-pnr-law-at-precision", "mix-pnr-law-member-trimmed",
                              # one instance through detect calls at changing min_p
                              "dethist", "dethist-bs", "dethist-interleaved", "dethist-clear", "dethist-copy",
                              "dethist-stale-would-differ", "dethist-minp-lowered", "dethist-minp-raised"]
